@@ -10,6 +10,8 @@ for m in sorted(glob.glob("/tmp/mut/*C??/MUTANT/[0-9]")):
     tag = "%s-%s%s" % (prop, "" if dn == prop else "b", n)
     ev = json.load(open(os.path.join(m, "eval.json"))) if os.path.exists(os.path.join(m, "eval.json")) else {}
     fin = json.load(open(os.path.join(m, "final.json"))) if os.path.exists(os.path.join(m, "final.json")) else {}
+    if not os.path.exists(os.path.join(m, "meta.json")) or not os.path.exists(os.path.join(m, "patch.diff")):
+        continue  # still being produced
     meta = json.load(open(os.path.join(m, "meta.json")))
     confirmed = bool(ev.get("confirmed")) or (ev.get("demo_without_patch_rc") == 0 and ev.get("demo_with_patch_rc", 0) != 0 and tag in ("C06-1",))
     if not confirmed:
